@@ -96,7 +96,7 @@ theorem skipOrdered_escaped (m w' : List Char) (hw' : AllBlank w') :
 /-- the line  blanks ++ escapeAllPunct m ++ blanks  is `Plain` -/
 theorem plain_escaped (w m w' : List Char) (hw : AllBlank w) (hwidth : indentWidth w < 4)
     (hw' : AllBlank w') (hne : m ≠ []) (hh : ∀ c ∈ m.head?, c ≠ ' ' ∧ c ≠ '\t') (hnt : NoTerm m) :
-    Block.Plain w (escapeAllPunct m ++ w') := by
+    Block.C12.Plain w (escapeAllPunct m ++ w') := by
   refine ⟨hw, hwidth, ?_, ?_, skipOrdered_escaped m w' hw'⟩
   · intro c hc
     rcases List.mem_append.mp hc with h | h
@@ -122,14 +122,16 @@ theorem plain_escaped (w m w' : List Char) (hw : AllBlank w) (hwidth : indentWid
   · obtain ⟨c, t, rfl⟩ := List.exists_cons_of_ne_nil hne
     have hc := hh c (by simp)
     by_cases hp : isAsciiPunct c = true
-    · refine ⟨'\\', c :: (escapeAllPunct t ++ w'), by simp [escapeAllPunct, hp], by decide⟩
+    · exact ⟨'\\', c :: (escapeAllPunct t ++ w'), by simp [escapeAllPunct, hp], by decide,
+        fun _ => ⟨by decide, by decide⟩⟩
     · have hp' : isAsciiPunct c = false := by simpa using hp
-      refine ⟨c, escapeAllPunct t ++ w', by simp [escapeAllPunct, hp'], ?_⟩
       have key : ∀ d : Char, isAsciiPunct d = true → c ≠ d := by
         intro d hd h; subst h; rw [hp'] at hd; cases hd
+      refine ⟨c, escapeAllPunct t ++ w', by simp [escapeAllPunct, hp'], ?_,
+        fun _ => ⟨key _ (by decide), key _ (by decide)⟩⟩
       simp only [List.mem_cons, List.not_mem_nil, or_false, not_or]
       exact ⟨hc.1, hc.2, key _ (by decide), key _ (by decide), key _ (by decide), key _ (by decide),
-        key _ (by decide), key _ (by decide), key _ (by decide), key _ (by decide), key _ (by decide)⟩
+        key _ (by decide), key _ (by decide), key _ (by decide)⟩
 
 /-! ## what the tree looks like -/
 
@@ -151,10 +153,10 @@ theorem docAlt_leaf (n : Node) (h : n.children = []) : docAlt n = n.kind.ownAlt 
   simp only at h; subst h
   simp [docAlt, docAltList]
 
-theorem ofInlineList_leaves (ns : List Inline.Node) (h : ∀ n ∈ ns, Inline.TS n) :
-    (∀ c ∈ ofInlineList ns, EscLeaf c) ∧ docAltList (ofInlineList ns) = Inline.showList ns := by
+theorem ofInlineList_leaves (ns : List Inline.Node) (h : ∀ n ∈ ns, Inline.C12.TS n) :
+    (∀ c ∈ ofInlineList ns, EscLeaf c) ∧ docAltList (ofInlineList ns) = Inline.C12.showList ns := by
   induction ns with
-  | nil => simp [ofInlineList, docAltList, Inline.showList]
+  | nil => simp [ofInlineList, docAltList, Inline.C12.showList]
   | cons n r ih =>
     obtain ⟨ih1, ih2⟩ := ih (fun x hx => h x (by simp [hx]))
     obtain ⟨v, rg, cs⟩ := n
@@ -174,7 +176,7 @@ theorem ofInlineList_leaves (ns : List Inline.Node) (h : ∀ n ∈ ns, Inline.TS
     · simp only [ofInlineList, docAltList, ih2]
       rw [docAlt_leaf _ hleaf.1]
       rcases hv with ⟨x, rfl⟩ | ⟨ch, rfl⟩ <;>
-        simp [ofInline, Kind.ownAlt, Inline.showList, Inline.showNode]
+        simp [ofInline, Kind.ownAlt, Inline.C12.showList, Inline.C12.showNode]
 
 /-! ## the join pass on such leaves -/
 
@@ -270,13 +272,14 @@ theorem fragmentsJoin_leaves (cs : List Node) (h : ∀ c ∈ cs, EscLeaf c) :
     · intro x hx; exact i1 x (List.mem_filter.mp hx).1
     · rw [filter_keep_leaves _ i1, i2]; rfl
 
-theorem joinNode_leaf {c : Node} (h : EscLeaf c) : joinNode c = c := by
-  rw [joinNode_eq, h.1, fragmentsJoin_nil, joinList_eq_map]
+theorem joinNode_childless {c : Node} (h : c.children = []) : joinNode c = c := by
+  rw [joinNode_eq, h, fragmentsJoin_nil, joinList_eq_map]
   obtain ⟨k, r, a, cs⟩ := c
-  have := h.1
-  simp only at this
-  subst this
+  simp only at h
+  subst h
   rfl
+
+theorem joinNode_leaf {c : Node} (h : EscLeaf c) : joinNode c = c := joinNode_childless h.1
 
 theorem joinList_leaves (cs : List Node) (h : ∀ c ∈ cs, EscLeaf c) : joinList cs = cs := by
   rw [joinList_eq_map]
@@ -338,7 +341,7 @@ structure RoundTripCfg (cfg : DocCfg) : Prop where
   para : Block.RuleId.paragraph ∈ cfg.blockChain
   /-- text scanner and escape rule are in the inline chain (any other rules, any order); emphasis
       markers are ASCII punctuation other than `\` -/
-  inl : Inline.ChainOK cfg.inlineChain
+  inl : Inline.C12.ChainOK cfg.inlineChain
 
 theorem isSpTab_iff (c : Char) : Inline.isSpTab c = true ↔ (c = ' ' ∨ c = '\t') := by
   simp [Inline.isSpTab]
@@ -362,7 +365,7 @@ theorem escape_roundtrip_doc_blanks (cfg : DocCfg) (hcfg : RoundTripCfg cfg) (w 
     rw [escapeAllPunct_append, escapeAllPunct_append, escapeAllPunct_blank w hw,
       escapeAllPunct_blank w' hw', List.append_assoc]
   have hplain := plain_escaped w m w' hw hwidth hw' hne hh hnt
-  have hblock := Block.parseBlocks_one_line cfg.blockCfg hcfg.para hcfg.nest w _ hplain
+  have hblock := Block.C12.parseBlocks_one_line cfg.blockCfg hcfg.para hcfg.nest w _ hplain
   have nb : ∀ c : Char, (c ≠ ' ' ∧ c ≠ '\t') → Inline.isSpTab c = false := by
     intro c hc
     cases h : Inline.isSpTab c
@@ -370,21 +373,21 @@ theorem escape_roundtrip_doc_blanks (cfg : DocCfg) (hcfg : RoundTripCfg cfg) (w 
     · rcases (isSpTab_iff c).mp h with rfl | rfl
       · exact absurd rfl hc.1
       · exact absurd rfl hc.2
-  obtain ⟨ns, hns, hts, hshow⟩ := Inline.parseInline_escaped (cfg := cfg.inlineCfg []) hcfg.inl hcfg.nest
-    w m w' [(0, 0)] Inline.wf_single (fun c hc => (isSpTab_iff c).mpr (hw c hc))
+  obtain ⟨ns, hns, hts, hshow⟩ := Inline.C12.parseInline_escaped (cfg := cfg.inlineCfg []) hcfg.inl hcfg.nest
+    w m w' [(0, 0)] Inline.C12.wf_single (fun c hc => (isSpTab_iff c).mpr (hw c hc))
     (fun c hc => (isSpTab_iff c).mpr (hw' c hc)) hne (fun c hc => nb c (hh c hc))
     (fun c hc => nb c (hl c hc)) (fun h => (hnt _ h).1 rfl)
   obtain ⟨l1, l2⟩ := ofInlineList_leaves ns hts
   -- the tree behind the splice walk
   have hsplice : spliceNode (cfg.inlineCfg [])
       ⟨.root, some (0, Lines.byteLen (w ++ (escapeAllPunct m ++ w'))),
-        [Block.oneParagraph w (escapeAllPunct m ++ w')]⟩ =
+        [Block.C12.oneParagraph w (escapeAllPunct m ++ w')]⟩ =
       .ok ⟨.blk .root, some (0, Lines.byteLen (w ++ (escapeAllPunct m ++ w'))), [],
         [⟨.blk .paragraph, some (w.length, Lines.byteLen (w ++ (escapeAllPunct m ++ w'))), [],
           ofInlineList ns⟩]⟩ := by
     have hns' : Inline.parseInline (cfg.inlineCfg []) (w ++ (escapeAllPunct m ++ w')) [(0, 0)] = .ok ns := by
       rw [← List.append_assoc]; exact hns
-    simp [spliceNode, spliceList, Block.oneParagraph, hns']
+    simp [spliceNode, spliceList, Block.C12.oneParagraph, hns']
   have hshape : ShowsPara ⟨.blk .root, some (0, Lines.byteLen (w ++ (escapeAllPunct m ++ w'))), [],
         [⟨.blk .paragraph, some (w.length, Lines.byteLen (w ++ (escapeAllPunct m ++ w'))), [],
           ofInlineList ns⟩]⟩ m :=
@@ -506,5 +509,464 @@ example : ∃ t, parseDoc (exCfg true 100)
     (by decide)
 
 end Examples
+
+/-! # Part 2: context agreement
+
+  A valid reference or escape `R` with the characters `X` it denotes is `Entity.Denotes lookup R X`
+  (named reference present in the table, numeric reference, escape of one of the 32 escapable
+  characters: exactly the cases of `named_agree`, `numeric_agree`, `escape_agree` of `Props/C12.lean`).
+
+    `reference_in_paragraph`   (a) `md.parse("a" ++ R ++ "b")` is
+                               `Root[Paragraph[Text "a", TextSpecial{content: X, markup: R}, Text "b"]]`
+                               and displays `"a" ++ X ++ "b"`
+    `reference_in_fence_info`  (e) `md.parse("~~~ " ++ R)` is `Root[CodeFence{info: " " ++ R}]`,
+                               `unescape_all` of that info is `" " ++ X`, and — when `X` is a non-empty
+                               word without white space — the `class` attribute `CodeFence::render`
+                               computes is `lang_prefix ++ X`
+    so the SAME `X` is shown in paragraph text and named in the fence's class.
+  OPEN (end of file): (b) destination, (c) title, (d) definition at document level.
+-/
+
+end MdIt.Pipeline
+
+namespace MdIt.Entity
+
+/-- `R` is a valid character reference or backslash escape, `X` the characters it denotes -/
+inductive Denotes (lookup : List Char → Option (List Char)) : List Char → List Char → Prop
+  /-- `&name;` with the syntax of a named reference, present in the table -/
+  | named (n cs : List Char) (hn : namedSyntax n = true) (hl : lookup ('&' :: (n ++ [';'])) = some cs) :
+      Denotes lookup ('&' :: (n ++ [';'])) cs
+  /-- `&#…;` / `&#x…;`: the character with that code, U+FFFD if `is_valid_entity_code` rejects it -/
+  | numeric (cap : List Char) (h : numericBody cap = true) :
+      Denotes lookup ('&' :: '#' :: (cap ++ [';'])) (codeToChars (entityCode cap))
+  /-- `\c` for one of the 32 escapable characters -/
+  | escape (c : Char) (h : c ∈ escapable) : Denotes lookup ['\\', c] [c]
+
+theorem isAlnum_plain {c : Char} (h : isAlnum c = true) : c ≠ '\n' ∧ c ≠ '\r' := by
+  constructor <;> (intro he; subst he; revert h; decide)
+
+theorem Denotes.noTerm {lookup : List Char → Option (List Char)} {R X : List Char}
+    (h : Denotes lookup R X) : ∀ c ∈ R, c ≠ '\n' ∧ c ≠ '\r' := by
+  cases h with
+  | named n cs hn hl =>
+    obtain ⟨c, t, rfl, hc, ht, _, _⟩ := namedSyntax_parts n hn
+    intro x hx
+    simp only [List.cons_append, List.mem_cons, List.mem_append, List.not_mem_nil, or_false] at hx
+    rcases hx with rfl | rfl | hx | rfl
+    · exact ⟨by decide, by decide⟩
+    · exact isAlnum_plain (by simp [isAlnum, hc])
+    · exact isAlnum_plain (ht x hx)
+    · exact ⟨by decide, by decide⟩
+  | numeric cap hcap =>
+    obtain ⟨ha, _, _⟩ := numericBody_alnum cap hcap
+    intro x hx
+    simp only [List.mem_cons, List.mem_append, List.not_mem_nil, or_false] at hx
+    rcases hx with rfl | rfl | hx | rfl
+    · exact ⟨by decide, by decide⟩
+    · exact ⟨by decide, by decide⟩
+    · exact isAlnum_plain (ha x hx)
+    · exact ⟨by decide, by decide⟩
+  | escape c hc =>
+    intro x hx
+    simp only [List.mem_cons, List.not_mem_nil, or_false] at hx
+    rcases hx with rfl | rfl
+    · exact ⟨by decide, by decide⟩
+    · exact ⟨fun he => by subst he; revert hc; decide, fun he => by subst he; revert hc; decide⟩
+
+/-- path B on `R` followed by anything -/
+theorem Denotes.unescape {lookup : List Char → Option (List Char)} {R X : List Char}
+    (h : Denotes lookup R X) (hno : ∀ s, lookup ('&' :: '#' :: s) = none) (rest : List Char) :
+    unescapeScan lookup 0 (R ++ rest) = X ++ unescapeScan lookup 0 rest := by
+  cases h with
+  | named n cs hn hl =>
+    have := unescapeScan_named lookup n rest _ hn hl
+    simpa using this
+  | numeric cap hcap =>
+    have := unescapeScan_numeric lookup cap rest hcap (hno _)
+    simpa [decodeEntity] using this
+  | escape c hc => exact unescapeScan_escape lookup c rest hc
+
+end MdIt.Entity
+
+namespace MdIt.Pipeline
+open MdIt.Entity (Denotes)
+
+mutual
+/-- the node values of a tree in pre-order (ranges and attributes forgotten) -/
+def kindsPre : Node → List Kind
+  | ⟨k, _, _, cs⟩ => k :: kindsPreList cs
+def kindsPreList : List Node → List Kind
+  | [] => []
+  | c :: cs => kindsPre c ++ kindsPreList cs
+end
+
+mutual
+theorem docAlt_kindsPre (t : Node) : docAlt t = (kindsPre t).flatMap Kind.ownAlt := by
+  match t with
+  | ⟨k, r, a, cs⟩ => simp only [docAlt, kindsPre, List.flatMap_cons, docAltList_kindsPre cs]
+theorem docAltList_kindsPre (cs : List Node) : docAltList cs = (kindsPreList cs).flatMap Kind.ownAlt := by
+  match cs with
+  | [] => rfl
+  | c :: r =>
+    simp only [docAltList, kindsPreList, List.flatMap_append, docAlt_kindsPre c, docAltList_kindsPre r]
+end
+
+mutual
+theorem sourceposNode_kindsPre {src : List Char} {marks : List SourceMap.Mark} (t t' : Node)
+    (h : sourceposNode src marks t = .ok t') : kindsPre t' = kindsPre t := by
+  match t with
+  | ⟨k, r, a, cs⟩ =>
+    simp only [sourceposNode] at h
+    split at h
+    · cases h
+    · split at h
+      · cases h
+      · rename_i cs' hcs
+        cases h
+        simp only [kindsPre, sourceposList_kindsPre cs cs' hcs]
+theorem sourceposList_kindsPre {src : List Char} {marks : List SourceMap.Mark} (cs cs' : List Node)
+    (h : sourceposList src marks cs = .ok cs') : kindsPreList cs' = kindsPreList cs := by
+  match cs with
+  | [] => simp [sourceposList] at h; subst h; rfl
+  | c :: r =>
+    simp only [sourceposList] at h
+    split at h
+    · cases h
+    · rename_i c' hc
+      split at h
+      · cases h
+      · rename_i r' hr
+        cases h
+        simp only [kindsPreList, sourceposNode_kindsPre c c' hc, sourceposList_kindsPre r r' hr]
+end
+
+/-- the configurations of part (a): those of the round trip, with the entity rule in the inline chain
+    and no emphasis-like rule on `&` -/
+structure AgreeCfg (cfg : DocCfg) : Prop where
+  rt : RoundTripCfg cfg
+  entity : Inline.RuleId.entity ∈ cfg.inlineChain
+  amp : ∀ mk csw, Inline.RuleId.emph mk csw ∈ cfg.inlineChain → mk ≠ '&'
+
+/-- the `info` field of the `TextSpecial` node: which rule made it -/
+def infoOf (R : List Char) : List Char :=
+  if R.head? = some '&' then Inline.infoEntity else Inline.infoEscape
+
+/-- the inline parser on `"a" ++ R ++ "b"` -/
+theorem parseInline_reference {icfg : Inline.Cfg} (hc : Inline.C12.ChainOK icfg.chain) (hmax : 0 < icfg.maxNesting)
+    (hent : Inline.RuleId.entity ∈ icfg.chain)
+    (hamp : ∀ mk csw, Inline.RuleId.emph mk csw ∈ icfg.chain → mk ≠ '&')
+    (R X : List Char) (h : Denotes icfg.entity R X) :
+    ∃ r1 r2 r3, Inline.parseInline icfg ('a' :: (R ++ ['b'])) [(0, 0)] =
+      .ok [Inline.Node.newText ['a'] (some r1), Inline.Node.leaf (.special X R (infoOf R)) (some r2),
+           Inline.Node.newText ['b'] (some r3)] := by
+  have hqamp : ∀ r ∈ icfg.chain, r ≠ .entity → Inline.C12.trigger r '&' = false := by
+    intro r hr hne
+    cases r with
+    | entity => exact absurd rfl hne
+    | emph mk csw =>
+      simp only [Inline.C12.trigger, beq_eq_false_iff_ne]
+      exact fun he => hamp mk csw hr he.symm
+    | text => decide
+    | _ => rfl
+  have hentity : ∀ (R' : List Char), R = '&' :: R' →
+      Entity.entityCore icfg.entity (R ++ ['b']) (R ++ ['b']) = .ok (some ⟨R.length, X, R⟩) →
+      ∃ r1 r2 r3, Inline.parseInline icfg ('a' :: (R ++ ['b'])) [(0, 0)] =
+        .ok [Inline.Node.newText ['a'] (some r1), Inline.Node.leaf (.special X R (infoOf R)) (some r2),
+             Inline.Node.newText ['b'] (some r3)] := by
+    intro R' hR hcore
+    have hinfo : infoOf R = Inline.infoEntity := by simp [infoOf, hR]
+    rw [hinfo]
+    exact Inline.C12.parseInline_aRb hc hmax R X Inline.infoEntity .entity '&' R' hR (by decide) hent hqamp
+      (fun skip tok fuel st hsrc hpos hpm rg hrg =>
+        Inline.C12.fire_entity icfg skip tok fuel st ['a'] R ['b'] X R' hR hcore hsrc hpos hpm rg hrg)
+  cases h with
+  | named n cs hn hl =>
+    refine hentity (n ++ [';']) rfl ?_
+    have := Entity.entityCore_named icfg.entity n ['b'] _ hn hl
+    simpa using this
+  | numeric cap hcap =>
+    refine hentity ('#' :: (cap ++ [';'])) rfl ?_
+    have := Entity.entityCore_numeric icfg.entity cap ['b'] hcap
+    simpa [Entity.decodeEntity] using this
+  | escape c hcesc =>
+    have hinfo : infoOf ['\\', c] = Inline.infoEscape := by simp [infoOf]
+    rw [hinfo]
+    exact Inline.C12.parseInline_aRb hc hmax ['\\', c] [c] Inline.infoEscape .escape '\\' [c] rfl (by decide)
+      hc.escape (Inline.C12.trigger_backslash hc)
+      (fun skip tok fuel st hsrc hpos hpm rg hrg =>
+        Inline.C12.fire_escape icfg skip tok fuel st c ['b'] hcesc
+          (Inline.C12.window_of_src (B := []) (by rw [hsrc]; simp) hpos hpm) rg hrg)
+
+/-- **C12 (a), whole document.**  For every valid reference or escape `R` denoting `X`:
+    `md.parse("a" ++ R ++ "b")` does not panic and is
+    `Root[Paragraph[Text "a", TextSpecial { content: X, markup: R, info }, Text "b"]]`
+    (`info` = `"entity"` / `"escape"`); as plain text it displays `"a" ++ X ++ "b"`. -/
+theorem reference_in_paragraph (cfg : DocCfg) (hcfg : AgreeCfg cfg) (R X : List Char)
+    (h : Denotes cfg.entity R X) :
+    ∃ t, parseDoc cfg ('a' :: (R ++ ['b'])) = .ok t ∧
+      kindsPre t = [.blk .root, .blk .paragraph, .inl (.text ['a']), .inl (.special X R (infoOf R)),
+        .inl (.text ['b'])] ∧
+      docAlt t = 'a' :: (X ++ ['b']) := by
+  have hplain : Block.C12.Plain [] ('a' :: (R ++ ['b'])) := by
+    refine ⟨(by intro c hc; cases hc), (by decide), ?_,
+      ⟨'a', R ++ ['b'], rfl, (by decide), fun _ => ⟨(by decide), (by decide)⟩⟩,
+      (by simp [Block.skipOrdered, Block.isDigit])⟩
+    intro c hc
+    simp only [List.mem_cons, List.mem_append, List.not_mem_nil, or_false] at hc
+    rcases hc with rfl | hc | rfl
+    · exact ⟨by decide, by decide⟩
+    · exact h.noTerm c hc
+    · exact ⟨by decide, by decide⟩
+  have hblock := Block.C12.parseBlocks_one_line cfg.blockCfg hcfg.rt.para hcfg.rt.nest [] _ hplain
+  obtain ⟨r1, r2, r3, hin⟩ := parseInline_reference (icfg := cfg.inlineCfg []) hcfg.rt.inl hcfg.rt.nest
+    hcfg.entity hcfg.amp R X h
+  have hdisp : ∀ t : Node, kindsPre t = [.blk .root, .blk .paragraph, .inl (.text ['a']),
+      .inl (.special X R (infoOf R)), .inl (.text ['b'])] → docAlt t = 'a' :: (X ++ ['b']) := by
+    intro t ht
+    rw [docAlt_kindsPre, ht]
+    simp [Kind.ownAlt]
+  -- the tree behind the splice walk
+  let kids : List Node := [⟨.inl (.text ['a']), some r1, [], []⟩,
+    ⟨.inl (.special X R (infoOf R)), some r2, [], []⟩, ⟨.inl (.text ['b']), some r3, [], []⟩]
+  let para : Node := ⟨.blk .paragraph, some (0, Lines.byteLen ('a' :: (R ++ ['b']))), [], kids⟩
+  let t0 : Node := ⟨.blk .root, some (0, Lines.byteLen ('a' :: (R ++ ['b']))), [], [para]⟩
+  have hsplice : spliceNode (cfg.inlineCfg [])
+      ⟨.root, some (0, Lines.byteLen ([] ++ 'a' :: (R ++ ['b']))),
+        [Block.C12.oneParagraph [] ('a' :: (R ++ ['b']))]⟩ = .ok t0 := by
+    simp [spliceNode, spliceList, Block.C12.oneParagraph, hin, ofInlineList, ofInline, Inline.Node.newText,
+      Inline.Node.leaf, t0, para, kids]
+  have hk0 : kindsPre t0 = [.blk .root, .blk .paragraph, .inl (.text ['a']),
+      .inl (.special X R (infoOf R)), .inl (.text ['b'])] := by
+    simp [t0, para, kids, kindsPre, kindsPreList]
+  have hjoin : joinNode t0 = t0 := by
+    have hk : fragmentsJoin kids = kids := by
+      simp [kids, fragmentsJoin, pass1, Pipeline.markerToText, mergeAll, mergeLoop, keep, Node.isText,
+        Node.content]
+    have hp : fragmentsJoin [para] = [para] := by
+      simp [para, fragmentsJoin, pass1, Pipeline.markerToText, mergeAll, mergeLoop, keep, Node.isText]
+    have hjk : joinList kids = kids := by
+      rw [joinList_eq_map]
+      simp [kids, joinNode_childless]
+    have hjp : joinNode para = para := by
+      rw [joinNode_eq]
+      show ({ para with children := joinList (fragmentsJoin kids) } : Node) = para
+      rw [hk, hjk]
+    rw [joinNode_eq]
+    show ({ t0 with children := joinList (fragmentsJoin [para]) } : Node) = t0
+    rw [hp, joinList_eq_map]
+    simp [hjp, t0]
+  unfold parseDoc
+  rw [show 'a' :: (R ++ ['b']) = [] ++ 'a' :: (R ++ ['b']) from rfl, hblock]
+  simp only [afterBlocks, hsplice, hjoin, ite_self]
+  by_cases hsp : cfg.sourcepos = true
+  · simp only [hsp, if_true]
+    obtain ⟨t', ht'⟩ := sourceposNode_total ([] ++ 'a' :: (R ++ ['b'])) t0
+    have hk' := sourceposNode_kindsPre t0 t' ht'
+    exact ⟨t', ht', hk'.trans hk0, hdisp t' (hk'.trans hk0)⟩
+  · simp only [hsp]
+    exact ⟨t0, rfl, hk0, hdisp t0 hk0⟩
+
+/-! ## (e) the fence info string -/
+
+/-- the configurations of part (e): `max_nesting > 0`, the fence rule is in the block chain and comes
+    before the paragraph rule (`pre` = the rules in front of its first occurrence) -/
+structure FenceCfg (cfg : DocCfg) : Prop where
+  nest : 0 < cfg.maxNesting
+  chain : ∃ pre post, cfg.blockChain = pre ++ Block.RuleId.fence :: post ∧
+    Block.RuleId.paragraph ∉ pre ∧ Block.RuleId.fence ∉ pre
+
+theorem takeWhile_all {α : Type} (p : α → Bool) (l : List α) (h : ∀ x ∈ l, p x = true) :
+    l.takeWhile p = l := by
+  induction l with
+  | nil => rfl
+  | cons c r ih => simp [List.takeWhile_cons, h c (by simp), ih (fun x hx => h x (by simp [hx]))]
+
+theorem firstWord_word (X : List Char) (hne : X ≠ []) (hws : ∀ c ∈ X, NodeRender.isWs c = false) :
+    NodeRender.firstWord (' ' :: X) = X := by
+  obtain ⟨c, t, rfl⟩ := List.exists_cons_of_ne_nil hne
+  have h1 : NodeRender.isWs ' ' = true := by decide
+  have h2 := hws c (by simp)
+  unfold NodeRender.firstWord
+  simp only [List.dropWhile_cons, h1, if_true, h2]
+  exact takeWhile_all _ _ (fun x hx => by simp [hws x hx])
+
+/-- **C12 (e), whole document.**  For every valid reference or escape `R` denoting `X` (the table
+    holding no name that starts `&#`: `table_no_hash`): `md.parse("~~~ " ++ R)` does not panic and is
+    `Root[CodeFence { info: " " ++ R, marker: '~', marker_len: 3, content: "" }]`; `unescape_all` of that
+    info string is `" " ++ X` — the characters `R` denotes in paragraph text (`reference_in_paragraph`) —
+    and when `X` is a non-empty word without white space the attribute list `CodeFence::render` hands
+    to `<code>` is the node's own plus `class = lang_prefix ++ X`. -/
+theorem reference_in_fence_info (cfg : DocCfg) (hcfg : FenceCfg cfg) (R X : List Char)
+    (h : Denotes cfg.entity R X) (hno : ∀ s, cfg.entity ('&' :: '#' :: s) = none) :
+    ∃ t f, parseDoc cfg ('~' :: '~' :: '~' :: ' ' :: R) = .ok t ∧ t.kind = .blk .root ∧
+      t.children = [f] ∧ f.kind = .blk (.codeFence (' ' :: R) '~' 3 []) ∧ f.children = [] ∧
+      Entity.unescapeAll cfg.entity (' ' :: R) = ' ' :: X ∧
+      (X ≠ [] → (∀ c ∈ X, NodeRender.isWs c = false) →
+        NodeRender.fenceAttrs cfg.entity f.attrs (' ' :: R) cfg.langPrefix =
+          .ok (f.attrs ++ [(NodeRender.aClass, cfg.langPrefix ++ X)])) := by
+  obtain ⟨pre, post, hchain, hpre, hnf⟩ := hcfg.chain
+  -- `unescape_all(" " ++ R)`
+  have hun : Entity.unescapeAll cfg.entity (' ' :: R) = ' ' :: X := by
+    have hR : ∃ c0 R', R = c0 :: R' ∧ (c0 = '&' ∨ c0 = '\\') := by
+      cases h with
+      | named n cs hn hl => exact ⟨_, _, rfl, .inl rfl⟩
+      | numeric cap hcap => exact ⟨_, _, rfl, .inl rfl⟩
+      | escape c hc => exact ⟨_, _, rfl, .inr rfl⟩
+    obtain ⟨c0, R', hR, hc0⟩ := hR
+    have hcont : (!(' ' :: R).contains '\\' && !(' ' :: R).contains '&') = false := by
+      rcases hc0 with rfl | rfl <;> simp [hR]
+    have hnm : Entity.matchUnescapeAllRe (' ' :: R) = none := by
+      simp [Entity.matchUnescapeAllRe, Entity.matchEscapeRe, Entity.matchEntityRe]
+    have := h.unescape hno []
+    rw [List.append_nil, Entity.unescapeScan_nil, List.append_nil] at this
+    unfold Entity.unescapeAll
+    rw [hcont]
+    simp only [Bool.false_eq_true, if_false]
+    rw [Entity.unescapeScan_nomatch _ _ _ hnm, this]
+  have hattrs : ∀ attrs, X ≠ [] → (∀ c ∈ X, NodeRender.isWs c = false) →
+      NodeRender.fenceAttrs cfg.entity attrs (' ' :: R) cfg.langPrefix =
+        .ok (attrs ++ [(NodeRender.aClass, cfg.langPrefix ++ X)]) := by
+    intro attrs hne hws
+    rw [NodeRender.fence_class, hun, firstWord_word X hne hws, if_neg hne]
+  -- the block pass
+  have hplain : Block.C12.PlainG true [] ('~' :: '~' :: '~' :: ' ' :: R) := by
+    refine ⟨(by intro c hc; cases hc), (by decide), ?_,
+      ⟨'~', '~' :: '~' :: ' ' :: R, rfl, (by decide), fun hh => by cases hh⟩,
+      (by simp [Block.skipOrdered, Block.isDigit])⟩
+    intro c hc
+    simp only [List.mem_cons] at hc
+    rcases hc with rfl | rfl | rfl | rfl | hc
+    · exact ⟨by decide, by decide⟩
+    · exact ⟨by decide, by decide⟩
+    · exact ⟨by decide, by decide⟩
+    · exact ⟨by decide, by decide⟩
+    · exact h.noTerm c hc
+  have hblock := Block.C12.parseBlocks_fence_line cfg.blockCfg pre post hchain hpre hnf hcfg.nest []
+    ('~' :: '~' :: '~' :: ' ' :: R) hplain (' ' :: R) rfl (by intro c hc; simp at hc; subst hc; decide)
+  let fk : Kind := .blk (.codeFence (' ' :: R) '~' 3 [])
+  let rg : Option (Nat × Nat) := some (0, Lines.byteLen ('~' :: '~' :: '~' :: ' ' :: R))
+  let f0 : Node := ⟨fk, rg, [], []⟩
+  let t0 : Node := ⟨.blk .root, rg, [], [f0]⟩
+  have hsplice : spliceNode (cfg.inlineCfg [])
+      ⟨.root, some (0, Lines.byteLen ([] ++ '~' :: '~' :: '~' :: ' ' :: R)),
+        [Block.C12.oneFence [] ('~' :: '~' :: '~' :: ' ' :: R) (' ' :: R)]⟩ = .ok t0 := by
+    simp [spliceNode, spliceList, Block.C12.oneFence, t0, f0, fk, rg]
+  have hjoin : joinNode t0 = t0 := by
+    have hp : fragmentsJoin [f0] = [f0] := by
+      simp [f0, fk, fragmentsJoin, pass1, Pipeline.markerToText, mergeAll, mergeLoop, keep, Node.isText]
+    rw [joinNode_eq]
+    show ({ t0 with children := joinList (fragmentsJoin [f0]) } : Node) = t0
+    rw [hp, joinList_eq_map]
+    simp [joinNode_childless, t0, f0]
+  unfold parseDoc
+  rw [show '~' :: '~' :: '~' :: ' ' :: R = [] ++ '~' :: '~' :: '~' :: ' ' :: R from rfl, hblock]
+  simp only [afterBlocks, hsplice, hjoin, ite_self]
+  by_cases hsp : cfg.sourcepos = true
+  · simp only [hsp, if_true]
+    simp only [t0, f0, sourceposNode, sourceposList, sourceposAttrs_eq]
+    exact ⟨_, _, rfl, rfl, rfl, rfl, rfl, hun, hattrs _⟩
+  · simp only [hsp]
+    exact ⟨t0, f0, rfl, rfl, rfl, rfl, rfl, hun, hattrs _⟩
+
+/-! ## examples for part 2 -/
+
+section Examples2
+
+theorem exCfg_agree (sp : Bool) (mn : Nat) (h : 0 < mn) : AgreeCfg (exCfg sp mn) := by
+  refine ⟨exCfg_roundTrip sp mn h, by simp [exCfg], ?_⟩
+  intro mk csw hm
+  simp [exCfg] at hm
+  rcases hm with ⟨rfl, _⟩ | ⟨rfl, _⟩ | ⟨rfl, _⟩ <;> decide
+
+theorem exCfg_fence (sp : Bool) (mn : Nat) (h : 0 < mn) : FenceCfg (exCfg sp mn) :=
+  ⟨h, [.code], [.blockquote, .hr, .list, .reference, .heading, .lheading, .paragraph], rfl,
+    by decide, by decide⟩
+
+theorem exCfg_no_hash (sp : Bool) (mn : Nat) (s : List Char) : (exCfg sp mn).entity ('&' :: '#' :: s) = none := by
+  simp [exCfg]
+
+/-- `&amp;`, `&#x41;`, `&#0;` (→ U+FFFD) and `\*` are in the class -/
+example (sp : Bool) : Denotes (exCfg sp 100).entity "&amp;".toList ['&'] :=
+  .named "amp".toList ['&'] (by decide) (by cases sp <;> decide)
+example (lk : List Char → Option (List Char)) : Denotes lk "&#x41;".toList ['A'] :=
+  .numeric "x41".toList (by decide)
+example (lk : List Char → Option (List Char)) : Denotes lk "&#0;".toList [Char.ofNat 0xFFFD] :=
+  .numeric "0".toList (by decide)
+example (lk : List Char → Option (List Char)) : Denotes lk "\\*".toList ['*'] := .escape '*' (by decide)
+
+/-- (a) and (e) on `&amp;`: the paragraph shows `a&b`, the fence's class is `l-&` (`lang_prefix` of the
+    example configuration is `l-`) -/
+example (sp : Bool) : ∃ t, parseDoc (exCfg sp 100) "a&amp;b".toList = .ok t ∧ docAlt t = "a&b".toList := by
+  obtain ⟨t, h1, _, h3⟩ := reference_in_paragraph _ (exCfg_agree sp 100 (by decide)) _ _
+    (.named "amp".toList ['&'] (by decide) (by cases sp <;> decide))
+  exact ⟨t, h1, h3⟩
+
+example (sp : Bool) : ∃ t f, parseDoc (exCfg sp 100) "~~~ &amp;".toList = .ok t ∧ t.children = [f] ∧
+    NodeRender.fenceAttrs (exCfg sp 100).entity f.attrs " &amp;".toList ['l', '-'] =
+      .ok (f.attrs ++ [(NodeRender.aClass, "l-&".toList)]) := by
+  obtain ⟨t, f, h1, _, h3, _, _, _, h7⟩ := reference_in_fence_info _ (exCfg_fence sp 100 (by decide)) _ _
+    (.named "amp".toList ['&'] (by decide) (by cases sp <;> decide)) (exCfg_no_hash sp 100)
+  exact ⟨t, f, h1, h3, h7 (by decide) (by decide)⟩
+
+/-- by evaluation, with the numeric reference `&#x41;` and the escape `\*` -/
+example : (parseDoc (exCfg true 100) "a&#x41;b".toList).toOption.map (fun t => (tags t, docAlt t)) =
+    some ([.root, .p, .T, .X, .T], "aAb".toList) := by decide +kernel
+example : (renderDoc false (exCfg false 100) "~~~ &#x41;\\*".toList) =
+    .ok "<pre><code class=\"l-A*\"></code></pre>\n".toList := by decide +kernel
+
+/-- NECESSARY for (e) "fence before paragraph": with the paragraph rule first the line is a paragraph -/
+example : (parseDoc { exCfg false 100 with blockChain := [.paragraph, .fence] } "~~~ x".toList).toOption.map tags =
+    some [.root, .p, .T] := by decide +kernel
+
+/-- NECESSARY for (a) "no emphasis-like rule on `&`": such a (custom) rule takes the ampersand -/
+example : (parseDoc { exCfg false 100 with inlineChain := [.emph '&' true, .text, .escape, .entity] }
+      "a&amp;b".toList).toOption.map docAlt = some "a&amp;b".toList := by decide +kernel
+
+/-- OUTSIDE the class: a reference the table does not hold, a code with 8 digits, a missing `;` stay
+    literal in paragraph text AND in the info string (both paths leave them alone) -/
+example : (parseDoc (exCfg false 100) "a&zz;&#00000065;&#65b".toList).toOption.map docAlt =
+      some "a&zz;&#00000065;&#65b".toList ∧
+    Entity.unescapeAll (exCfg false 100).entity " &zz;&#00000065;&#65".toList = " &zz;&#00000065;&#65".toList := by
+  decide +kernel
+
+end Examples2
+
+/-
+OPEN: (b) destination, (c) title, (d) definition at whole-document level.
+
+  (c)  theorem reference_in_title (cfg) (R X) (h : Denotes cfg.entity R X) (hno : table has no `&#` name) :
+         ∃ t, parseDoc cfg ("[x](/u \"" ++ R ++ "\")") = .ok t ∧
+           kindsPre t = [root, paragraph, link (utf8 "/u") (some X), text "x"]
+  (b)  … parseDoc cfg ("[x](</" ++ R ++ ">)") … link (normalizeLink (utf8 ("/" ++ X))) none, when
+       `validateLink` accepts that url
+  (d)  … parseDoc cfg ("[k]: </" ++ R ++ "> \"" ++ R ++ "\"\n\n[k]") …  the same url and title
+
+  What is there: the mechanism (`Denotes.unescape`: `unescapeScan lookup 0 (R ++ rest) = X ++ …`, which
+  gives `unescapeAll lookup ("/" ++ R) = "/" ++ X` and `unescapeAll lookup R = X` exactly as in
+  `reference_in_fence_info`), the block pass for (b)/(c) (`Block.C12.parseBlocks_one_line`; `Block.C12.PlainG`
+  must also allow a first character `[` when `refQuick false rest = false` — one more case in
+  `runRule_other`, the line `[x](…` fails the quick `]:` test), the splice / join / sourcepos plumbing
+  (`kindsPre`, `sourceposNode_kindsPre`, `joinNode_childless`), the exact-step lemmas of the inline loop.
+  MISSING, precisely:
+    L1  a symbolic run of `Inline.linkRule` on `[x](…)` at fuel `f + 1`:
+          `parseLinkLabel` → `labelLoop` calls `skipToken cfg f` at `x` (text scanner in silent mode,
+          `silentBumped`, one memo insert) and stops at `]`;  then
+          `Link.parseInlineTail (unescapeAll lookup) src (labelEnd + 1) posMax` on
+          `(</R>)` resp. `(/u "R")`;  then the nested `tokLoop cfg f` on the label window `x`
+          (= `step_text_fresh` with `P = "["`, `B = "](…)"`), `level` / `linkLevel` restored.
+    L2  `Link.parseInlineTail u src a b` evaluated on these two templates for an ARBITRARY `R` in the
+        class: `Link.parseLinkDestination` in its `<…>` branch must scan over `R` (needs: `R` contains
+        no `<`, `>`, line feed — false for the escapes `\<`, `\>`, which the scanner treats through its
+        own backslash rule: the statement needs that case split) and return `raw = "/" ++ R`;
+        `Link.parseLinkTitle` must scan the `"`-delimited title over `R` (needs: no unescaped `"` in
+        `R`; `\"` is again the scanner's backslash case) and return `raw = R`.  No lemma about these
+        two scanners on a symbolic middle part exists yet (`Props/C04.lean` has only "result is a
+        slice of the input" facts).
+    L3  for (d): `Block.refParse cfg` on `[k]: </R> "R"` (label scan, `wsScan`, the same two `Link`
+        scanners as L2, `refTrail`), the reference rule's `lazyScan` over the blank line, then the
+        paragraph `[k]` on line 2 (a two-line `OneLine` analogue: `Block.C12.parseBlocks_one_line` is for
+        one-line sources), and `Inline.parseLinkRef` + `Refs.lookup` of the normalised label
+        (needs `Refs.normalize cfg.L cfg.U "k"` for the configuration's case tables).
+-/
 
 end MdIt.Pipeline
